@@ -48,7 +48,7 @@ def reference(uris, delimiters, cutoff, metaprefix, existing):
         if known is not None and known.is_uri(uri):
             continue
         for d in delimiters:
-            if d not in uri:
+            if not d or d not in uri:      # (the empty string delimits nothing)
                 continue
             head, tail = uri.rsplit(d, 1)
             if tail.isalnum():
@@ -116,7 +116,7 @@ def _check(seq, di, cutoff, metaprefix, ei, ctx, want, DELIMS):
             kind = "naming-not-metaprefix-in-sorted-order"
         fails.append((kind, f"{where}: result {got}, reference {wantd}"))
         return fails
-    dl = tuple(DELIMS[di]) if DELIMS[di] else DEFAULT_DELIMS
+    dl = tuple(d_ for d_ in DELIMS[di] if d_) if DELIMS[di] else DEFAULT_DELIMS
     for r in res.records:
         if not r.uri_prefix.endswith(dl):
             fails.append(("uri-prefix-does-not-end-in-a-delimiter", f"{where}: {r.uri_prefix!r}"))
@@ -191,6 +191,10 @@ def sweep_cases():
             seq = [f"h:/a{t}1", f"h:/a{t}2", f"h:/b{t}00{last}1", f"h:/b{t}{last}{last}", f"h:/c{t}x{t}y", "h:/nothing"]
             add(seq, delims=[t])
             add(seq, delims=[t, "/"], cutoff=2)
+    # delimiter lists that contain the empty string (it delimits nothing)
+    for dl in ([""], ["/", ""], ["", "/"], ["_", "", "/"]):
+        add(["h:/a/1", "h:/a/b_2", "h:/a/x-y", "nodelim"], delims=dl)
+        add(["h:/a/1", "h:/a/b_2", "h:/a/x-y", "nodelim"], delims=dl, cutoff=1, existing=1)
     for x, y in list(sweeps.TWINS) + list(sweeps.URL_TWINS):
         add([f"h:/{x}/1", f"h:/{y}/1"])
         add([f"{x}1", f"{y}1", f"{x}2"]) if x.startswith(("http", "urn")) else add([f"h:/a/{x}", f"h:/a/{y}"], cutoff=2)
